@@ -1303,6 +1303,7 @@ def r6(cx):
                        for org, lab, e in conds)
         some_single = False
         for org, lab, e in conds:
+            org, lab = Q.peel_not(du, org, lab)
             if org['k'] != 'call':
                 continue
             c = pp.callee(org['t'])
@@ -1357,8 +1358,14 @@ def r4b(cx):
     F = cx.F
     root = 'yash_semantics::expansion::phrase::Phrase::ifs_join'
     ATTR = 'yash_env::semantics::expansion::attr::AttrChar'
-    bodies = F.logical(root)
+    bodies = list(F.logical(root))
     cx.require(bodies, 'Phrase::ifs_join not found')
+    # a private helper of the module that ifs_join calls (e.g. an extracted `ifs_separator`) belongs to it
+    for b in list(bodies):
+        for blk, t in b.calls():
+            c = pp.callee(t)
+            if c.startswith('yash_semantics::expansion::phrase::') and c != root and c in F.by_root:
+                bodies += [x for x in F.logical(c) if x not in bodies]
     built, computed = 0, 0
     where = None
     for body in bodies:
